@@ -23,6 +23,13 @@ def run_C17(ctx):
             for _ in range(rng.randrange(1, 4)):
                 c.ops += history_ops(rng, fam, mode, bs, w, rng.randrange(1, 4))
                 c.ops += ["debug", "algname"]
+            # positions at and next to the end of the keystream (remaining_blocks = 0, 1, 2, 3) and at the middle
+            # of the counter range: the text must not depend on the position there either
+            if fam in ("stream", "core") and mode != "ofb" and rng.random() < 0.4:
+                limb = limit_blocks(mode)
+                target = rng.choice([limb, limb - 1, limb - 2, limb - 3, limb // 2, 2 ** (counter_bits(mode) // 2)])
+                c.ops += [f"{'fromcore' if fam == 'stream' else 'setpos'} {target}", "debug", "algname"]
+                c.meta["cls_pos"] = "limit" if target >= limb - 3 else "far"
             allc.append(c)
     res = ctx.run(allc, layers=("impl",))
     ctx.no_panic(allc, res)
